@@ -142,7 +142,9 @@ class PathCtx:
                 r = self._check()
                 raise CheckFailed(label, self.solver.model() if r == z3.sat else None, detail)
             return True
-        r = self._check(z3.Not(c))
+        from symcore.solver import ground_axioms
+        ax = ground_axioms(self.pc + [c])
+        r = self._check(z3.Not(c), *ax)
         if r == z3.unsat:
             return True
         if r == z3.sat:
@@ -293,7 +295,7 @@ def _cmp(op):
 
 
 class _Num:
-    __array_priority__ = 2000
+
     __slots__ = ("e",)
 
     def __init__(self, e):
@@ -427,7 +429,7 @@ class SymReal(_Num):
 
 
 class SymBool:
-    __array_priority__ = 2000
+
     __slots__ = ("e",)
 
     def __init__(self, e):
